@@ -868,6 +868,66 @@ func runStorm(c caseT) obsT {
 			}
 		}
 	}
+	// a subscriber registers while a publication is under way (held up by a slow subscriber with backpressure) and a
+	// cancelled subscriber, not yet collected, is still ahead in the list: everybody who stays ends on the final value
+	if val != nil && c.Iter%3 == 0 && o.WriterStall == 0 && o.Unclosed == 0 {
+		v2 := resource.NewValue(resource.WithInitialValue(msg(0)))
+		type watcher struct {
+			last   int64
+			cancel context.CancelFunc
+			pause  chan struct{}
+		}
+		watch := func(paused bool) *watcher {
+			ctx, cancel := context.WithCancel(context.Background())
+			w := &watcher{cancel: cancel, pause: make(chan struct{})}
+			if !paused {
+				close(w.pause)
+			}
+			ch := v2.Pull(ctx, resource.WithBackpressure(true))
+			first := make(chan struct{})
+			go func() {
+				n := 0
+				for e := range ch {
+					atomic.StoreInt64(&w.last, int64(e.Value.(*testproto.TestAllTypes).DefaultInt32))
+					if n == 0 {
+						close(first)
+						<-w.pause // (a paused consumer takes its seed and then nothing until it is resumed)
+					}
+					n++
+				}
+			}()
+			select {
+			case <-first:
+			case <-time.After(2 * time.Second):
+			}
+			return w
+		}
+		wc, wa, wb := watch(false), watch(true), watch(false)
+		_, _ = v2.Set(msg(1)) // A's forwarder now holds 1 for its paused consumer
+		wc.cancel()           // cancelled, and still first in the bus's list until a send meets it
+		set2 := make(chan struct{})
+		go func() { defer close(set2); _, _ = v2.Set(msg(2)) }() // skips C, waits on A
+		time.Sleep(time.Duration(1+rnd.Intn(3)) * time.Millisecond)
+		wn := watch(false) // registers while the publication of 2 is under way
+		close(wa.pause)    // A resumes
+		select {
+		case <-set2:
+		case <-time.After(6 * time.Second):
+			o.WriterStall++
+		}
+		time.Sleep(20 * time.Millisecond)
+		if o.WriterStall == 0 {
+			for _, w := range []*watcher{wa, wb, wn} {
+				if atomic.LoadInt64(&w.last) != 2 {
+					o.SurvivorMissed++
+				}
+			}
+		}
+		o.Survivors += 3
+		wa.cancel()
+		wb.cancel()
+		wn.cancel()
+	}
 	// a subscriber with backpressure that is still being handed its seed values while an item is deleted: it keeps
 	// receiving, so the delete (which sends while it holds the collection's lock) gets through and nobody is stuck
 	if col != nil && o.WriterStall == 0 && o.Unclosed == 0 {
@@ -1005,12 +1065,16 @@ func main() {
 		}
 		hx.Current(c)
 		var o obsT
+		began := time.Now()
 		if c.Mode == "storm" {
 			o = runStorm(c)
 		} else {
 			o = runBus(c)
 		}
-		if o.Drift != "" || o.Problem != "" || len(o.Panics) > 0 || o.Unclosed > 0 || o.WriterStall > 0 || o.Leaked > 0 || o.SurvivorMissed > 0 || o.PullIDStall > 0 {
+		// (a run that merely left the specification's behaviour and was finished free-running in no time costs
+		//  nothing: it does not count towards giving up on the batch)
+		cheapDrift := o.Drift != "" && time.Since(began) < 300*time.Millisecond
+		if (o.Drift != "" && !cheapDrift) || o.Problem != "" || len(o.Panics) > 0 || o.Unclosed > 0 || o.WriterStall > 0 || o.Leaked > 0 || o.SurvivorMissed > 0 || o.PullIDStall > 0 {
 			bad++
 		}
 		out.Write(o)
